@@ -146,6 +146,13 @@ async fn main() -> Result<(), Terminator> {
 
         st_mut.set_rules(rules::from_config(&cfg.rules)?).await?;
         st_mut.io_params = cfg.io_params;
+        #[cfg(redproxy_verif)]
+        vtrace::emit(
+            "cfg",
+            serde_json::json!({"idle": st_mut.timeouts.idle, "udp": st_mut.timeouts.udp,
+                               "default_timeout": st_mut.contexts.default_timeout, "history": st_mut.contexts.history_size,
+                               "buffer": st_mut.io_params.buffer_size, "splice": st_mut.io_params.use_splice}),
+        );
     }
 
     for l in state.listeners.values() {
@@ -223,7 +230,11 @@ async fn process_request(ctx: ContextRef, state: Arc<GlobalState>) {
         .set_state(ContextState::ServerConnecting)
         .set_connector(connector.name().to_owned());
     let props = ctx.read().await.props().clone();
+    #[cfg(redproxy_verif)]
+    vtrace::emit("connect_begin", serde_json::json!({"id": props.id, "connector": connector.name()}));
     if let Err(e) = connector.connect(state.clone(), ctx.clone()).await {
+        #[cfg(redproxy_verif)]
+        vtrace::emit("connect_end", serde_json::json!({"id": props.id, "ok": false, "err": e.to_string()}));
         warn!(
             "failed to connect to upstream: {} cause: {:?} \nctx: {}",
             e,
@@ -233,6 +244,8 @@ async fn process_request(ctx: ContextRef, state: Arc<GlobalState>) {
         return ctx.on_error(e).await;
     }
 
+    #[cfg(redproxy_verif)]
+    vtrace::emit("connect_end", serde_json::json!({"id": props.id, "ok": true}));
     ctx.on_connect().await;
     if let Err(e) = copy_bidi(ctx.clone(), &state.io_params).await {
         warn!(
